@@ -179,8 +179,19 @@ Proof. intros m f m1 H. unfold un_op in H. break_hyp H; flow_inv; reflexivity. Q
 Lemma bin_op_ctl : forall m f m1, bin_op m f = Ok (Continue, m1) -> ctl m1 = ctl m.
 Proof. intros m f m1 H. unfold bin_op in H. break_hyp H; flow_inv; reflexivity. Qed.
 
+Lemma out_apply_ctl : forall m o op m1, out_apply m o op = Ok (Continue, m1) -> ctl m1 = ctl m.
+Proof.
+  intros m o op m1 H. unfold out_apply in H.
+  destruct (znth (m_outs m) o); [|discriminate]. destruct (buf_apply o0 op); try discriminate.
+  destruct (zupd (m_outs m) o b); [|discriminate]. flow_inv. reflexivity.
+Qed.
+
 Lemma out_write_ctl : forall m o vs m1, out_write m o vs = Ok m1 -> ctl m1 = ctl m.
-Proof. intros m o vs m1 H. unfold out_write in H. break_hyp H; flow_inv; reflexivity. Qed.
+Proof.
+  intros m o vs m1 H. unfold out_write, out_apply in H. cbn [buf_apply] in H.
+  destruct (znth (m_outs m) o); [|discriminate]. destruct (zupd (m_outs m) o (vs ++ o0)); [|discriminate].
+  unfold continue in H. inv H. reflexivity.
+Qed.
 
 Lemma input_read_ctl : forall e m i n r m1, input_read e m i n = Ok (r, m1) -> ctl m1 = ctl m.
 Proof. intros e m i n r m1 H. unfold input_read in H. break_hyp H; flow_inv; reflexivity. Qed.
@@ -250,6 +261,7 @@ Ltac ctl_chain :=
          | H : un_op _ _ = Ok (Continue, _) |- _ => apply un_op_ctl in H
          | H : bin_op _ _ = Ok (Continue, _) |- _ => apply bin_op_ctl in H
          | H : out_write _ _ _ = Ok _ |- _ => apply out_write_ctl in H
+         | H : out_apply _ _ _ = Ok (Continue, _) |- _ => apply out_apply_ctl in H
          | H : input_read _ _ _ _ = Ok _ |- _ => apply input_read_ctl in H
          | H : push_items _ _ _ = Ok (Continue, _) |- _ => apply push_items_ctl in H
          | H : deliver _ _ _ _ _ = Ok (Continue, _) |- _ => apply deliver_ctl in H
@@ -438,8 +450,13 @@ Lemma move_ip_noof : forall m d, move_ip m d <> OutOfFuel.
 Proof. intros m d H. unfold move_ip in H. break_all; oof_leaf. Qed.
 Lemma segment_done_noof : forall p m, segment_done p m <> OutOfFuel.
 Proof. intros p m H. unfold segment_done in H. break_all; oof_leaf. Qed.
+Lemma out_apply_noof : forall m o op, out_apply m o op <> OutOfFuel.
+Proof. intros m o op H. unfold out_apply in H. break_all; oof_leaf. Qed.
 Lemma out_write_noof : forall m o vs, out_write m o vs <> OutOfFuel.
-Proof. intros m o vs H. unfold out_write in H. break_all; oof_leaf. Qed.
+Proof.
+  intros m o vs H. unfold out_write in H. destruct (out_apply m o (BWrite vs)) as [[fl m1]|c|] eqn:E; try discriminate.
+  eapply out_apply_noof; eassumption.
+Qed.
 Lemma input_read_noof : forall e m i n, input_read e m i n <> OutOfFuel.
 Proof. intros e m i n H. unfold input_read in H. break_all; oof_leaf. Qed.
 Lemma pop_only_noof : forall m, pop_only m <> OutOfFuel.
@@ -468,7 +485,7 @@ Ltac oof_done :=
   | H : ?x = OutOfFuel |- _ =>
     exfalso; first [ eapply push_noof; exact H | eapply push_frame_noof; exact H | eapply pop_incr_noof; exact H
                    | eapply un_op_noof; exact H | eapply bin_op_noof; exact H | eapply fetch_noof; exact H
-                   | eapply move_ip_noof; exact H | eapply segment_done_noof; exact H | eapply out_write_noof; exact H
+                   | eapply move_ip_noof; exact H | eapply segment_done_noof; exact H | eapply out_write_noof; exact H | eapply out_apply_noof; exact H
                    | eapply input_read_noof; exact H | eapply pop_only_noof; exact H | eapply fetch_instr_noof; exact H
                    | eapply push_items_noof; exact H | eapply deliver_noof; exact H ]
   end.
@@ -530,7 +547,7 @@ Qed.
 
 Lemma deliver_inpos : forall p m d a b fl m1, deliver p m d a b = Ok (fl, m1) -> m_inpos m1 = m_inpos m.
 Proof.
-  intros p m d a b fl m1 H. unfold deliver, push, out_write, continue, stop in H. break_all; flow_inv; try inv H; reflexivity.
+  intros p m d a b fl m1 H. unfold deliver, push, out_write, out_apply, continue, stop in H. cbn [buf_apply] in H. break_all; flow_inv; try inv H; reflexivity.
 Qed.
 
 Lemma read_nbits_noof : forall fuel p e m inp d flip bw mask wl wr rem data,
@@ -906,49 +923,119 @@ Section Iterated.
   Qed.
 End Iterated.
 
+
 (* ================================================================== 6. the pinned tree: stepping is NOT equivalent to running *)
 From Coq Require Import String.
-Open Scope string_scope.
+Import List ListNotations.
 
-Definition prog_do_loop := compile 64 4 16 (bytes "3 0 do i loop").
-Definition prog_exit := compile 64 16 16 (bytes ": f 10 -1 if exit then 20 ; f").
+Definition prog_do_loop := compile 64 4 16 (bytes "3 0 do i loop"%string).
+Definition prog_exit := compile 64 16 16 (bytes ": f 10 -1 if exit then 20 ; f"%string).
+
+Definition p_do_loop := mkProg 64 [[0; 3; 0; 0; 5; 67]; [29]] [] [] [] [] 4 16.
+Definition p_exit := mkProg 64 [[67]; [0; 10; 0; -1; 3; 68; 0; 20]; [10; 1]] [([102], 67)] [] [] [] 16 16.
+Definition m_begun := mkM [] [] [] [] [(0, 0)] [] [0] true 0.
+Definition m_final (stack : list Z) := mkM stack [] [] [] [] [] [] true 0.
 
 (* `3 0 do i loop` with room for 4 cells: one call leaves 0 1 2; single-stepping never advances the loop
    counter, pushes 0 until the stack is full and ends in stack_overflow — a state from which no step continues *)
 Theorem run_is_iterated_step_refuted_proof :
-  exists p, prog_do_loop = COk p /\
-  exists m0 mf ms k,
-    api_begin p (mkEnv []) (init_machine p) = Ok m0 /\
-    complete 1 100 false p (mkEnv []) m0 = Ok mf /\ m_stack mf = [2; 1; 0] /\ m_err mf = E_none /\ is_done mf = true /\
+  exists p m0 mf ms k,
+    prog_do_loop = COk p /\ api_begin p (mkEnv []) (init_machine p) = Ok m0 /\
+    complete 2 100 false p (mkEnv []) m0 = Ok mf /\ m_stack mf = [2; 1; 0] /\ m_err mf = E_none /\ is_done mf = true /\
     iter_step false p (mkEnv []) k m0 = Ok ms /\ can_go ms = false /\ m_err ms = E_overflow /\ m_stack ms = [0; 0; 0; 0].
 Proof.
-  eexists. split; [vm_compute; reflexivity|].
-  eexists. eexists. eexists. exists 13%nat.
+  exists p_do_loop, m_begun, (m_final [2; 1; 0]), (mkM [0; 0; 0; 0] [] [] [] [(1, 1); (0, 5)] [(1, 3, 0)] [0] true 6), 13%nat.
   repeat split; vm_compute; reflexivity.
 Qed.
 
 (* `exit` taken while single-stepping does not leave the word *)
 Theorem step_exit_refuted_proof :
-  exists p, prog_exit = COk p /\
-  exists m0 mf ms k,
-    api_begin p (mkEnv []) (init_machine p) = Ok m0 /\
-    complete 1 100 false p (mkEnv []) m0 = Ok mf /\ m_stack mf = [10] /\ is_done mf = true /\
+  exists p m0 mf ms k,
+    prog_exit = COk p /\ api_begin p (mkEnv []) (init_machine p) = Ok m0 /\
+    complete 2 100 false p (mkEnv []) m0 = Ok mf /\ m_stack mf = [10] /\ is_done mf = true /\
     iter_step false p (mkEnv []) k m0 = Ok ms /\ is_done ms = true /\ m_err ms = E_none /\ m_stack ms = [20; 10].
 Proof.
-  eexists. split; [vm_compute; reflexivity|].
-  eexists. eexists. eexists. exists 8%nat.
+  exists p_exit, m_begun, (m_final [10]), (m_final [20; 10]), 8%nat.
   repeat split; vm_compute; reflexivity.
 Qed.
 
-(* with the patch both witnesses agree with the one-call result *)
+(* non-vacuity of the positive theorems: with the patch both witnesses reach the one-call result by stepping *)
 Example patched_witnesses :
-  (exists p, prog_do_loop = COk p /\ exists m0 mf,
-     api_begin p (mkEnv []) (init_machine p) = Ok m0 /\ complete 1 100 true p (mkEnv []) m0 = Ok mf /\
-     iter_step true p (mkEnv []) 30 m0 = Ok mf /\ m_stack mf = [2; 1; 0]) /\
-  (exists p, prog_exit = COk p /\ exists m0 mf,
-     api_begin p (mkEnv []) (init_machine p) = Ok m0 /\ complete 1 100 true p (mkEnv []) m0 = Ok mf /\
-     iter_step true p (mkEnv []) 30 m0 = Ok mf /\ m_stack mf = [10]).
+  (prog_do_loop = COk p_do_loop /\ api_begin p_do_loop (mkEnv []) (init_machine p_do_loop) = Ok m_begun /\
+   complete 2 100 true p_do_loop (mkEnv []) m_begun = Ok (m_final [2; 1; 0]) /\
+   iter_step true p_do_loop (mkEnv []) 30 m_begun = Ok (m_final [2; 1; 0])) /\
+  (prog_exit = COk p_exit /\ api_begin p_exit (mkEnv []) (init_machine p_exit) = Ok m_begun /\
+   complete 2 100 true p_exit (mkEnv []) m_begun = Ok (m_final [10]) /\
+   iter_step true p_exit (mkEnv []) 30 m_begun = Ok (m_final [10])).
+Proof. repeat split; vm_compute; reflexivity. Qed.
+
+(* ================================================================== 7. output growth settings are unobservable *)
+Definition grow_ok (grow : Z -> Z) : Prop := forall r, 1 <= r -> r < grow r.
+
+Definition g_inv (g : gbuf) : Prop := 0 <= g_len g <= g_res g /\ zlen (g_data g) = g_res g /\ 1 <= g_res g.
+
+Lemma zlen_app : forall A (a b : list A), zlen (a ++ b) = zlen a + zlen b.
+Proof. intros. unfold zlen. rewrite app_length. lia. Qed.
+
+Lemma replicate_length : forall A n (x : A), length (replicate n x) = n.
+Proof. induction n; intros; cbn; [reflexivity|rewrite IHn; reflexivity]. Qed.
+
+Lemma grow_until_spec : forall grow next fuel res, grow_ok grow -> 1 <= res -> next < res + Z.of_nat fuel ->
+  exists r, grow_until (S fuel) grow next res = Some r /\ next <= r /\ res <= r.
 Proof.
-  split; (eexists; split; [vm_compute; reflexivity|]; eexists; eexists; repeat split; vm_compute; reflexivity).
+  intros grow next. induction fuel as [|f IH]; intros res Hg Hr Hf.
+  - cbn [grow_until]. destruct (res <? next) eqn:E; [lia|]. exists res. repeat split; lia.
+  - remember (S f) as sf. cbn [grow_until]. subst sf. destruct (res <? next) eqn:E.
+    + pose proof (Hg res Hr) as Hgr.
+      assert (A1 : 1 <= grow res) by lia.
+      assert (A2 : next < grow res + Z.of_nat f) by lia.
+      destruct (IH (grow res) Hg A1 A2) as (r & H1 & H2 & H3).
+      exists r. repeat split; [assumption|lia|lia].
+    + exists res. repeat split; lia.
 Qed.
-Close Scope string_scope.
+
+Lemma g_maybe_resize_spec : forall grow junk g next, grow_ok grow -> g_inv g -> 0 <= next ->
+  exists extra, g_maybe_resize grow junk g next = GOk (mkG (g_data g ++ extra) (g_len g) (g_res g + zlen extra))
+                /\ next <= g_res g + zlen extra.
+Proof.
+  intros grow junk g next Hg (Hl & Hd & Hr) Hn. unfold g_maybe_resize.
+  destruct (g_res g <? next) eqn:E.
+  - destruct (grow_until_spec grow next (Z.to_nat next) (g_res g) Hg Hr ltac:(lia)) as (r & H1 & H2 & H3).
+    rewrite H1. exists (replicate (Z.to_nat (r - g_res g)) junk).
+    unfold zlen. rewrite replicate_length. split; [f_equal; f_equal; lia | lia].
+  - exists []. rewrite app_nil_r. unfold zlen. cbn. rewrite Z.add_0_r. split; [destruct g; reflexivity | lia].
+Qed.
+
+Lemma upd_nat_spec : forall A (l : list A) n v, (n < length l)%nat ->
+  upd_nat l n v = Some (firstn n l ++ v :: skipn (S n) l).
+Proof.
+  induction l as [|h t IH]; intros n v H; cbn in H; [lia|].
+  destruct n; cbn; [reflexivity|]. rewrite IH by lia. reflexivity.
+Qed.
+
+Lemma skipn_add : forall A (l : list A) a b, skipn a (skipn b l) = skipn (b + a) l.
+Proof.
+  intros A l a b. revert l. induction b as [|b IH]; intro l; [reflexivity|].
+  destruct l; cbn [skipn Nat.add]; [destruct a; reflexivity|apply IH].
+Qed.
+
+Lemma g_store_spec : forall vs data a, (a + length vs <= length data)%nat ->
+  g_store data (Z.of_nat a) vs = Some (firstn a data ++ vs ++ skipn (a + length vs) data).
+Proof.
+  induction vs as [|v vs IH]; intros data a H; cbn [g_store length] in *.
+  - rewrite Nat.add_0_r. cbn. rewrite firstn_skipn. reflexivity.
+  - unfold zupd. destruct (Z.of_nat a <? 0) eqn:E; [lia|]. rewrite Nat2Z.id.
+    rewrite upd_nat_spec by lia.
+    replace (Z.of_nat a + 1) with (Z.of_nat (S a)) by lia.
+    rewrite IH.
+    + f_equal.
+      assert (Hfa : length (firstn a data) = a) by (apply firstn_length_le; lia).
+      replace (S a) with (length (firstn a data) + 1)%nat at 1 by lia.
+      rewrite firstn_app_2. cbn [firstn]. rewrite <- app_assoc. cbn [app]. f_equal. f_equal. f_equal.
+      replace (S a + length vs)%nat with (length (firstn a data) + (S (length vs)))%nat by lia.
+      rewrite skipn_app. rewrite Hfa.
+      rewrite (skipn_all2 (firstn a data)) by lia. cbn [app].
+      replace (a + S (length vs) - a)%nat with (S (length vs)) by lia.
+      rewrite skipn_cons. rewrite skipn_add. f_equal. lia.
+    + rewrite app_length. cbn [length]. rewrite firstn_length_le by lia. rewrite skipn_length. lia.
+Qed.
